@@ -139,7 +139,7 @@ def _check_error(rec, exc, kinds, ended):
 
 
 def _corner(ix):
-    return len(ix) == L and ix[L - 1] % K == CORNER_KIND
+    return len(ix) == L and hs.sel(ix[L - 1], K) == CORNER_KIND
 
 
 def check(ix: List[int]) -> bool:
